@@ -174,6 +174,13 @@ type fakeEtcd struct {
 	lastGet             wkey
 	// counters for the evidence
 	nDelivered, nReplayed, nSnaps, nCompacted, nProgress int64
+	// scripted Get faults (faults_test.go): the next getFail Get calls are refused with an
+	// error; getFailed counts the refusals go-zero has been given so far. onGet, if set,
+	// runs at the start of every Get, outside the lock, on go-zero's stack (it may block:
+	// that is how a load is held open while the harness does something else).
+	getFail, getFailed int
+	onGet              func(n int)
+	getCalls           int
 }
 
 func newFake(conn *grpc.ClientConn) *fakeEtcd {
@@ -223,11 +230,28 @@ func opKey(key string, opts []clientv3.OpOption) (wkey, int64) {
 	return wkey{key: string(o.KeyBytes()), end: string(o.RangeBytes())}, o.Rev()
 }
 
-// Get never fails (a failing load makes go-zero sleep one real second).
+// errGetRefused is what a scripted Get failure returns.
+var errGetRefused = errors.New("etcdserver: request timed out (injected by the c13 harness)")
+
+// Get fails only where a history scripts it (a failing load makes go-zero sleep one
+// real second before it retries).
 func (f *fakeEtcd) Get(_ context.Context, key string, opts ...clientv3.OpOption) (*clientv3.GetResponse, error) {
 	wk, _ := opKey(key, opts)
 	f.mu.Lock()
+	f.getCalls++
+	n, hook := f.getCalls, f.onGet
+	f.mu.Unlock()
+	if hook != nil {
+		hook(n)
+	}
+	f.mu.Lock()
 	defer f.mu.Unlock()
+	if f.getFail > 0 {
+		f.getFail--
+		f.getFailed++
+		f.poke()
+		return nil, errGetRefused
+	}
 	fe := f.feedLocked(wk)
 	var keys []string
 	for k := range f.kv {
@@ -470,7 +494,12 @@ func (f *fakeEtcd) compact() {
 
 // compactLive cancels the live stream with a compaction revision (what etcd does
 // to a watcher that fell behind the compaction).
-func (f *fakeEtcd) compactLive(wk wkey) {
+func (f *fakeEtcd) compactLive(wk wkey) { f.compactLiveRaw(wk, true) }
+
+// compactLiveRaw: canceled=false is a response that carries the compact revision without
+// the canceled flag (WatchResponse.Err() is ErrCompacted all the same); the channel is
+// closed after it either way.
+func (f *fakeEtcd) compactLiveRaw(wk wkey, canceled bool) {
 	f.mu.Lock()
 	defer f.mu.Unlock()
 	fe := f.feeds[wk]
@@ -480,8 +509,35 @@ func (f *fakeEtcd) compactLive(wk wkey) {
 	fe.cur.dead = true
 	fe.rec(cLiveCompacted, 0, f.compactRev)
 	fe.cur.push(qitem{resp: clientv3.WatchResponse{Header: pb.ResponseHeader{Revision: f.rev},
-		Canceled: true, CompactRevision: f.compactRev}, terminal: true})
+		Canceled: canceled, CompactRevision: f.compactRev}, terminal: true})
 	f.nCompacted++
+}
+
+// transLens: the current length of every feed's transcript.
+func (f *fakeEtcd) transLens() map[wkey]int {
+	f.mu.Lock()
+	defer f.mu.Unlock()
+	m := make(map[wkey]int, len(f.feeds))
+	for wk, fe := range f.feeds {
+		m[wk] = len(fe.trans)
+	}
+	return m
+}
+
+// inject queues a raw watch response on the live stream of wk (terminal: the channel is
+// closed after it and the stream counts as ended).
+func (f *fakeEtcd) inject(wk wkey, resp clientv3.WatchResponse, terminal bool) bool {
+	f.mu.Lock()
+	defer f.mu.Unlock()
+	fe := f.feeds[wk]
+	if fe == nil || fe.cur == nil || fe.cur.dead {
+		return false
+	}
+	if terminal {
+		fe.cur.dead = true
+	}
+	fe.cur.push(qitem{resp: resp, terminal: terminal})
+	return true
 }
 
 // probe queues a progress notification behind everything already queued on the live
